@@ -21,10 +21,13 @@ pub mod error;
 pub use error::{Error, Result};
 #[path = "gen/put_validation.rs"]
 pub mod put_validation;
+#[path = "gen/client_items.rs"]
+pub mod client_items;
 mod runner;
 
 fn main() {
     let mut v = put_validation::harness::harnesses();
     v.extend(data_payments::harness::harnesses());
+    v.extend(client_items::harness::harnesses());
     runner::main_dispatch(v);
 }
